@@ -301,23 +301,30 @@ Definition call_okb (dgs : list (Z * (list Z * Z))) (o : xcop) : bool :=
       end
   end.
 
-Definition id_okb (calls : list xcop) (d : Z * (list Z * Z)) : bool :=
+(* [lower]: the run can neither time a reassembler out nor evict one (default limits, no clock
+   jumps); then a reassembler is only ever released by the completion of its datagram, so when the
+   started calls on an id cover the datagram at least once, at least one of them returned it *)
+Definition id_okb (lower : bool) (calls : list xcop) (d : Z * (list Z * Z)) : bool :=
   let mine := filter (fun o => xc_id o =? fst d) calls in
-  count_done mine <=? min_mult mine (snd (snd d)).
+  (count_done mine <=? min_mult mine (snd (snd d)))
+  && (negb lower || (min_mult mine (snd (snd d)) <? 1) || (1 <=? count_done mine)).
 
 Definition snap_okb (st : cstepobs) : bool :=
   match st with CS _ fsize nmap lids => (0 <=? fsize) && (Z.of_nat (length lids) =? nmap) && nodupb lids end.
 
-Definition spec_conc (xd : list (Z * (list Z * Z))) (xp : list (list xcop)) (steps : list cstepobs) : Z :=
+Definition spec_conc (lower : bool) (xd : list (Z * (list Z * Z))) (xp : list (list xcop)) (steps : list cstepobs) : Z :=
   let calls := concat xp in
-  if forallb (call_okb xd) calls && forallb (id_okb calls) xd && forallb snap_okb steps then 0 else 1.
+  if forallb (call_okb xd) calls && forallb (id_okb lower calls) xd && forallb snap_okb steps then 0 else 1.
+(* controlled runs of kind 5 (two goroutines, one id) and 6 (random three-goroutine runs) use the
+   default limits and no clock jumps; 7 = eviction runs, 8 = timeout runs *)
+Definition lower_kind (kind : Z) : bool := (kind =? 5) || (kind =? 6).
 
 Definition spec (c : case) : Z :=
   match c with
   | CRun kind high low timeout dgs ops => spec_run kind high low timeout (expand_dgs dgs) (map expand_op ops)
   | CHash a b c iv r => if (0 <=? r) && (r <? 2^32) then 0 else 1
-  | CConc _ _ _ _ dgs progs steps => spec_conc (expand_dgs dgs) (map (map expand_cop) progs) steps
-  | CStress _ _ dgs progs _ => spec_conc (expand_dgs dgs) (map (map expand_cop) progs) []
+  | CConc kind _ _ _ dgs progs steps => spec_conc (lower_kind kind) (expand_dgs dgs) (map (map expand_cop) progs) steps
+  | CStress _ _ dgs progs _ => spec_conc true (expand_dgs dgs) (map (map expand_cop) progs) []
   end.
 
 (* tag: 0 = trivial (no call); kind (1..4) when no call returned a datagram; kind + 4 (5..8) when
@@ -346,7 +353,7 @@ Definition judge (c : case) : list Z :=
   | CHash _ _ _ _ _ => [corr c; spec c; tag c]
   | CConc kind high low timeout dgs progs steps =>
       let xp := map (map expand_cop) progs in
-      [corr_conc high low timeout xp steps; spec_conc (expand_dgs dgs) xp steps; tag c]
+      [corr_conc high low timeout xp steps; spec_conc (lower_kind kind) (expand_dgs dgs) xp steps; tag c]
   | CStress _ _ _ _ _ => [corr c; spec c; tag c]
   end.
 Lemma judge_eq : forall c, judge c = [corr c; spec c; tag c].
